@@ -163,6 +163,49 @@ def _thin(sites, cap):
     return out
 
 
+FLAG_APPEND = (1, 2, 4, 8, 16)
+
+
+def flag_sites(sm):
+    """every ONE-BYTE numeric field the real parse read (flag bytes, kinds, versions, booleans ...) with the length
+    block that encloses it: which optional trailer a reader parses is decided by bits of such bytes together with the
+    bytes left in that block."""
+    out = []
+    for f in sm.nums:
+        if f.size != 1 or f.off < 26:
+            continue
+        enc = sm.enclosing(f.off, f.off + 1)
+        if not enc:
+            continue
+        g, b0, b1, _ = enc[0]
+        out.append({"k": "flag", "feat": ("flag", f.site, f.ctx), "off": f.off, "size": 1, "label": f.label,
+                    "lenoff": g.off, "lensize": g.size, "b0": b0, "b1": b1, "opaque": False,
+                    "encl": [(h.off, h.size, h.value, e1) for h, _, e1, _ in enc[1:]]})
+    return out
+
+
+def flag_variants(site, base):
+    """bit-level mutation of the byte x length-changing splice of the enclosing block: each of the 8 single-bit flips,
+    alone and with k in FLAG_APPEND bytes appended to the enclosing block (zeros; for k = 4 and 16 also non-zero
+    bytes), every enclosing length re-computed -> [(name, edits)]"""
+    off = site["off"]
+    old = base[off]
+    grows = {}
+    for how, edits in lc.block_variants(site, ks=FLAG_APPEND):
+        if how.startswith("grow") and how.endswith("+fixup"):
+            grows[int(how[4:-6])] = edits
+    out = []
+    for bit in range(8):
+        put = ["put", off, "%02x" % (old ^ (1 << bit))]
+        out.append(("bit%d" % bit, [put]))
+        for k, edits in sorted(grows.items()):
+            out.append(("bit%d+append%d" % (bit, k), list(edits) + [put]))
+            if k in (4, 16):
+                alt = [(["rep", e[1], e[2], ("01ff7f80" * 4)[:2 * k]] if e[0] == "rep" and e[3] == "00" * k else e) for e in edits]
+                out.append(("bit%d+append%d-nonzero" % (bit, k), alt + [put]))
+    return out
+
+
 def index_fixture(arg):
     """payload-level sites of one fixture (byte sites from the structural map, leaf sites from the parsed object)"""
     name, want_map, cap = arg
@@ -172,7 +215,7 @@ def index_fixture(arg):
     try:
         data = fx_bytes(name)
         res, sm = lc.trace_parse(data)
-        sites = _thin(lc.payload_sites(sm) + lc.short_len_sites_with_drops(sm), cap)
+        sites = _thin(lc.payload_sites(sm) + lc.short_len_sites_with_drops(sm) + flag_sites(sm), cap)
         n_all = len(sm.keys), len(sm.scalars), len(sm.containers), len(sm.opaque)
         leafs = _thin(lc.leaf_sites(data), cap) if res[0] == "ok" else []
         sm.data = None
@@ -408,7 +451,7 @@ def run(ctx: core.Run):
     if not terms:
         ctx.notes.append("psd_tools.terminology enums not found: descriptor keys are substituted by non-terms only")
     chosen_sites = [x for x in lc.choose_sites(per_sites, k_site, pnames) if x[1]["k"] != "opaque"]
-    n_det = 0
+    n_det = n_flag = 0
     for name, site in chosen_sites:
         base = fx_bytes(name)
         if site["k"] == "plen":
@@ -424,6 +467,15 @@ def run(ctx: core.Run):
                     rec={"op": "short-len", "label": site["label"], "site": site["site"], "how": how, "off": site["off"],
                          "fixture": name, "edits": edits})
             continue
+        if site["k"] == "flag":
+            # one-byte fields (flags) x single-bit flips x bytes appended to the enclosing block, lengths re-computed
+            for how, edits in flag_variants(site, base):
+                n_det += 1
+                n_flag += 1
+                add(kind="payload", corr=False, fixture=name, edits=edits,
+                    rec={"op": "flag-bit-splice", "label": site["label"], "how": how, "off": site["off"],
+                         "site": site["feat"][1], "fixture": name, "edits": edits})
+            continue
         if site["k"] == "key":
             vs = lc.key_variants(site, base, terms, rng, 6 if quick else 16)
         elif site["k"] == "num":
@@ -436,7 +488,7 @@ def run(ctx: core.Run):
                 rec={"op": "payload-" + site["k"], "label": site["label"], "how": how, "off": site["off"],
                      "site": site["feat"][1], "fixture": name, "edits": edits})
     # random payload sites / variants (all from ctx.rng)
-    flat = [(n, s_) for n in pnames for s_ in per_sites.get(n, ()) if s_["k"] not in ("opaque", "plen")]
+    flat = [(n, s_) for n in pnames for s_ in per_sites.get(n, ()) if s_["k"] not in ("opaque", "plen", "flag")]
     n_rand_payload = 1500 if quick else 12000
     for name, site in (rng.sample(flat, min(len(flat), n_rand_payload)) if flat else []):
         base = fx_bytes(name)
@@ -476,6 +528,8 @@ def run(ctx: core.Run):
         "sites_in_maps": dict(zip(("keys", "scalar_leaves", "length_blocks", "opaque_payloads"), n_idx)),
         "reader_statements_with_sites": len({s_["feat"] for v in per_sites.values() for s_ in v}),
         "sites_chosen": len(chosen_sites), "sites_per_statement": k_site, "deterministic_mutants": n_det,
+        "flag_bit_splice_mutants": n_flag,
+        "flag_reader_statements": len({s_["feat"] for v in per_sites.values() for s_ in v if s_["k"] == "flag"}),
         "leaf_features": len({l["feat"] for v in per_leafs.values() for l in v}), "leaf_sites_chosen": len(chosen_leafs),
         "leafset_tasks": n_leafset, "terminology_terms_by_length": {str(k): len(v) for k, v in sorted(terms.items())},
     }
